@@ -370,7 +370,7 @@ def scenario(ch, cfg):
             if bidir and close_side:
                 # the server closes this connection through its handle (what its shutdown event does): the same
                 # handshake, started from the other end
-                stats["probe_server_initiated_close", "net_stall", "probe_request_with_effect", "probe_slow_on_close_ran"] += 1
+                stats["probe_server_initiated_close"] += 1
                 ncs[1].close()
             else:
                 nc.close()
